@@ -122,6 +122,7 @@ def run(rep):
     core.import_rules(rep, "c08", {"MEMBER-ONCE"})
     core.import_rules(rep, "c02", {"T-CONJ"})
     core.import_rules(rep, "c06", {"TRI-MATRIX", "TRI-OR", "TRI-AND"})
+    core.import_rules(rep, "c10", {"NESTED-MODEL", "T-NESTED"})
     if rep.tier == "thorough":
         import poscontrol
         poscontrol.droppers(rep)
